@@ -266,6 +266,16 @@ def main(argv):
             pass
     try:
         mod.run(chk)
+    except build.CacheEvicted as e:
+        # a cached binary / library vanished under the running check (the cache was pruned by another process): start over
+        # once — everything is rebuilt from the working tree; a second eviction is reported like any other internal error
+        if not os.environ.get("VERIF_RESTARTED"):
+            sys.stderr.write("check: %s; restarting the check once\n" % (e,))
+            sys.stderr.flush(); sys.stdout.flush()
+            os.environ["VERIF_RESTARTED"] = "1"
+            os.execv(sys.executable, [sys.executable] + sys.argv)
+        traceback.print_exc()
+        chk.report("check-internal-error", "internal error of the check: %r" % (e,), {"error": traceback.format_exc()[-4000:]}, found_input=False)
     except build.BuildError as e:
         # the working tree does not compile: nothing can be shown to hold
         chk.report("build-failure", "the working tree does not build: " + str(e)[:1500], {"error": str(e)[:4000]}, found_input=False)
